@@ -88,6 +88,7 @@ FLAVORS = {
                          "-fno-sanitize-recover=all"]),
     "gasan": ("g++", ["-O1", "-g", "-fsanitize=address", "-fno-omit-frame-pointer"]),
     "tsan": ("clang++", ["-O1", "-g", "-fsanitize=thread"]),
+    "gtsan": ("g++", ["-O1", "-g", "-fsanitize=thread"]),     # 8-byte struct atomics inline (clang calls libatomic, which TSan does not see)
 }
 BASEFLAGS = ["-std=c++11", "-Wno-error", "-Wno-abi", "-w", "-fPIC", "-D" + GUARD]
 LIBS = ["-lgsl", "-lgslcblas", "-lm", "-lpthread"]
